@@ -125,6 +125,33 @@ def class_patterns():
     return [p for p in out if not (p in seen or seen.add(p))]
 
 
+# every single-character escape of RFC 9485 (SingleCharEsc), alone, quantified, next to another
+# escape or atom, and inside a class; the subjects are made of the escaped characters themselves
+ESC_CHARS = list("()*+-.?[\\]^nrt{|}")
+ESC_SUBJ_ALPHA = list("()*+-.?[\\]^{|}nrta") + ["\n", "\r", "\t"]
+
+
+def escape_patterns():
+    out = []
+    for c in ESC_CHARS:
+        e = "\\" + c
+        out.append(e)
+        out += [e + q for q in QUANTS]
+        out += ["a" + e, e + "a", "(" + e + ")?", "[" + e + "]", "[^" + e + "]", "[" + e + "?]", "[(" + e + "]", e + "|a"]
+        for c2 in ESC_CHARS:
+            out.append(e + "\\" + c2)
+            out.append(e + "?" + "\\" + c2 + "?")
+    # unescaped metacharacters as class members
+    for c in "()*+.?{|}":
+        out += ["[" + c + "]", "[" + c + "?]", "[(" + c + "]", "[^" + c + "]"]
+    seen = set()
+    return [p for p in out if not (p in seen or seen.add(p))]
+
+
+def escape_subjects():
+    return [""] + ESC_SUBJ_ALPHA + [x + y for x in ESC_SUBJ_ALPHA for y in ESC_SUBJ_ALPHA]
+
+
 def shards(tier):
     pats = patterns(tier)
     step = 40
@@ -132,6 +159,8 @@ def shards(tier):
            for lo in range(0, len(pats), step)]
     cp = class_patterns()
     out += [{"space": "classes", "lo": lo, "hi": min(lo + 400, len(cp)), "tier": tier} for lo in range(0, len(cp), 400)]
+    ep = escape_patterns()
+    out += [{"space": "escapes", "lo": lo, "hi": min(lo + 60, len(ep)), "tier": tier} for lo in range(0, len(ep), 60)]
     out.append({"space": "invalid", "tier": tier})
     out.append({"space": "kinds", "tier": tier})
     return out
@@ -198,6 +227,17 @@ def run_shard(desc):
             for fn in ("match", "search"):
                 run_query(sh, f"$[?{fn}(@, {quote(p)})]", CLASS_SUBJECTS)
         sh.sample({"pattern": class_patterns()[desc["lo"]], "subjects": len(CLASS_SUBJECTS)}, limit=1)
+    elif desc["space"] == "escapes":
+        es = escape_subjects()
+        for p in escape_patterns()[desc["lo"]:desc["hi"]]:
+            r5 = iregexp.compile_(p) is not None
+            r1 = abnf.iregexp().matches("i-regexp", p)
+            if r5 != r1:
+                raise AssertionError(f"R5 and the RFC 9485 ABNF disagree on generated pattern {p!r}")
+            sh.bump("valid_escape_patterns" if r5 else "invalid_escape_patterns")
+            for fn in ("match", "search"):
+                run_query(sh, f"$[?{fn}(@, {quote(p)})]", es)
+        sh.sample({"pattern": escape_patterns()[desc["lo"]], "subjects": len(es)}, limit=1)
     elif desc["space"] == "invalid":
         for p in INVALID:
             assert iregexp.compile_(p) is None, p
@@ -222,6 +262,11 @@ def run_shard(desc):
                 run_query(sh, f"$[?{fn}(@, {lit})]", kinds)
                 run_query(sh, f"$[?{fn}({lit}, @)]", kinds)
             run_query(sh, f"$[?{fn}(@, @)]", kinds + ["a", ".", "[", "(", "a|b", "\\"])
+            # subject / pattern produced by a nested value() call (may be an array, an object, ...)
+            run_query(sh, f"$[?{fn}(value(@), 'a')]", kinds)
+            run_query(sh, f"$[?{fn}('a', value(@))]", kinds)
+            run_query(sh, f"$[?{fn}(value(@.*), '.*')]", kinds + [["a"], [["a"]], {"k": ["a"]}, [[]], ["a", "b"]])
+            run_query(sh, f"$[?{fn}(value(@[0]), value(@[1]))]", [["ab", "a."], [["a"], "a"], ["a", ["a"]], [[], []], ["a"]])
             run_query(sh, f"$[?{fn}(@.x, 'a')]", kinds)
             run_query(sh, f"$[?{fn}('a', @.x)]", kinds)
     return sh
